@@ -10,14 +10,14 @@ Open Scope Z_scope.
 
 (* ---------------------------------------------------------------- invariant over ANY operation list *)
 (* `state_ok`: for every object - buffer ids valid, one property cell per name, one name per row, the name index equals
-   the index rebuilt from the names, no property column on a database without rows.  `ops_dom`: from_array gets one name
-   per row; set_prop/update_props are not applied to a database without rows. *)
-Theorem invariant_any_history : forall ops s, state_ok s -> ops_dom s ops -> state_ok (run s ops).
+   the index rebuilt from the names.  No hypothesis on the operations: property columns declared on an empty database,
+   from_array with a wrong number of names (refused), every argument value - all are covered. *)
+Theorem invariant_any_history : forall ops s, state_ok s -> state_ok (run s ops).
 Proof. exact run_ok. Qed.
 Print Assumptions invariant_any_history.
 
 (* index[k] = the rows named k, increasing, nothing else; an entry exists iff a row carries the name; no empty entries *)
-Theorem index_complete : forall ops, ops_dom init ops -> forall h d, handle_db (run init ops) h = Some d ->
+Theorem index_complete : forall ops h d, handle_db (run init ops) h = Some d ->
   (forall k, idx_get k (dindex d) = positions k (dnames d) 0)
   /\ (forall k p, In p (positions k (dnames d) 0) <-> exists i, nth_error (dnames d) i = Some k /\ p = Z.of_nat i)
   /\ (forall k, ssorted (positions k (dnames d) 0))
@@ -26,7 +26,7 @@ Theorem index_complete : forall ops, ops_dom init ops -> forall h d, handle_db (
 Proof. exact index_complete. Qed.
 Print Assumptions index_complete.
 
-Theorem props_aligned : forall ops, ops_dom init ops -> forall h d, handle_db (run init ops) h = Some d ->
+Theorem props_aligned : forall ops h d, handle_db (run init ops) h = Some d ->
   length (dnames d) = fp_num d /\ forall k v, aget k (dprops d) = Some v -> length v = fp_num d.
 Proof. exact props_aligned. Qed.
 Print Assumptions props_aligned.
@@ -35,7 +35,7 @@ Print Assumptions props_aligned.
    [0, bits) - what every constructor of fprint.py produces -, from_array is given canonical rows), every stored row of every
    database has strictly increasing columns in [0, bits).  (Unsorted from_array input is outside this theorem; the
    correspondence covers it.) *)
-Theorem rows_wf : forall ops, ops_dom init ops -> Forall op_wf ops -> forall h d, handle_db (run init ops) h = Some d ->
+Theorem rows_wf : forall ops, Forall op_wf ops -> forall h d, handle_db (run init ops) h = Some d ->
   match dbits d with
   | Some b => Forall (fun r => ssorted (map fst r) /\ forall j, In j (map fst r) -> 0 <= j < b) (drows d)
   | None => drows d = []
@@ -88,6 +88,20 @@ Theorem copy_eq : forall s oid o s' hn,
   handle_db s' hn = Some (view (bufs s) o).
 Proof. exact copy_eq. Qed.
 Print Assumptions copy_eq.
+
+(* pickle / deepcopy and reloading from a .fpz (savez/load) or .fps (save/load) file: a new database denoting the same
+   abstract database - rows, names incl. None, name index, property columns, type, level, bits *)
+Theorem reload_id : forall s h oid o fpz s' hn,
+  state_ok s -> lookup s h = Some (oid, o) -> step s (OpReload h fpz) = (s', Ok (ONew hn)) ->
+  handle_db s' hn = Some (view (bufs s) o).
+Proof. exact reload_id. Qed.
+Print Assumptions reload_id.
+
+Theorem pickle_id : forall s h oid o s' hn,
+  state_ok s -> lookup s h = Some (oid, o) -> step s (OpPickle h) = (s', Ok (ONew hn)) ->
+  handle_db s' hn = Some (view (bufs s) o).
+Proof. exact pickle_id. Qed.
+Print Assumptions pickle_id.
 
 Theorem getitem_int_spec : forall d b i,
   dbits d = Some b ->
@@ -148,7 +162,7 @@ Print Assumptions reads_keep_eq.
 (* over any history: an operation leaves every database unchanged that is not the very object it is applied to (two
    handles denote the same object only through as_type(same type, copy=False), which returns self) *)
 Theorem snapshots_independent : forall ops o h oid ob,
-  ops_dom init ops -> let s := run init ops in
+  let s := run init ops in
   lookup s h = Some (oid, ob) -> Some oid <> target_of s o ->
   handle_db (fst (step s o)) h = handle_db s h.
 Proof. exact snapshots_independent. Qed.
@@ -159,9 +173,8 @@ Definition ex_fp (nm : option string) (i : Z) (p : Z) : fpin := mkfpin (mkfp KCo
 (* duplicate and None names; a copy; a fold (collision 1/9 -> 1); an addition to the copy only *)
 Definition ex_hist : list op :=
   [OpNew KCount (Some 5); OpAdd 0 [ex_fp (Some "a"%string) 1 10; ex_fp None 2 20; ex_fp (Some "a"%string) 3 30];
-   OpCopy 0; OpFold 0 8 None; OpAdd 1 [ex_fp (Some "b"%string) 4 40]].
-Example ex_hist_dom : ops_dom init ex_hist.
-Proof. unfold ex_hist. cbn [ops_dom op_dom]. repeat split. Qed.
+   OpCopy 0; OpFold 0 8 None; OpAdd 1 [ex_fp (Some "b"%string) 4 40];
+   OpNew KCount (Some 5); OpSetProp 3 "p"%string []; OpAdd 3 [ex_fp None 5 50]; OpReload 3 true].
 Example ex_hist_wf : Forall op_wf ex_hist.
 Proof.
   unfold ex_hist.
@@ -176,5 +189,6 @@ Example ex_hist_facts :
   option_map fp_num (handle_db s 0) = Some 3%nat /\ option_map fp_num (handle_db s 1) = Some 4%nat
   /\ option_map dindex (handle_db s 0) = Some [(Some "a"%string, [0; 2]); (None, [1])]
   /\ option_map drows (handle_db s 2) = Some [[(1, 5%Q)]; [(2, 5%Q)]; [(3, 5%Q)]]
-  /\ snd (step s (OpGetName 0 "zz"%string)) = Raises EKey.
+  /\ snd (step s (OpGetName 0 "zz"%string)) = Raises EKey
+  /\ option_map dprops (handle_db s 4) = Some [("p"%string, [VInt 50])].                (* declared on the empty database, reloaded *)
 Proof. vm_compute. repeat split. Qed.
